@@ -166,7 +166,8 @@ with SqliteImpl.impl_store.impl_manager as impl:
             "SQLite returns rounded milliseconds",
         )
         frac_seconds = sqa.cast(sqa.func.STRFTIME("%f", x), sqa.Numeric())
-        return sqa.cast((frac_seconds * 1e3), sqa.Integer()) % 1000
+        # (rounded before the cast: 1.001 * 1e3 is 1000.9999...)
+        return sqa.cast(sqa.func.round(frac_seconds * 1e3), sqa.Integer()) % 1000
 
     @impl(ops.dt_microsecond)
     def _dt_microsecond(x):
